@@ -41,6 +41,71 @@ PROPS = {
     ),
 }
 
+PROPS.update({
+    'C07': dict(
+        theorems=[(CMP + 'C07', ['DX.clone_fieldwise', 'DX.clone_struct_fields', 'DX.clone_enum_fields',
+                                 'DX.clone_from_same_variant', 'DX.clone_from_other_variant', 'DX.clone_from_spec'])],
+        l1=[('basic', 4000, 150000), ('all', 3000, 100000)],
+        labels=r':Clone$',
+    ),
+    'C08': dict(
+        theorems=[(CMP + 'C08', ['DX.forms_emitted', 'DX.ops_one_impl_per_form', 'DX.bin_fieldwise', 'DX.assign_fieldwise',
+                                 'DX.un_fieldwise', 'DX.ops_fields', 'DX.forms_agree'])],
+        l1=[('ops', 4000, 150000), ('all', 3000, 100000)],
+        labels=r':(Add|BitAnd|BitOr|BitXor|Div|Mul|Rem|Shl|Shr|Sub|Neg|Not)(Assign)?(#\d)?$',
+    ),
+    'C09': dict(
+        theorems=[(CMP + 'C09', ['DX.clone_exactly_when_needed', 'DX.binary_forwards_to_base', 'DX.assign_is_op',
+                                 'DX.op_from_assign', 'DX.emitted_binary_forms', 'DX.emitted_forms', 'DX.carries_over'])],
+        l1=[('impl', 6000, 200000)],
+        labels=r'^impl|^err$',
+    ),
+    'C10': dict(
+        theorems=[(CMP + 'C10', ['DX.debug_trace_is_std', 'DX.transparent_delegates', 'DX.two_transparent_rejected',
+                                 'DX.debug_struct_trace'])],
+        l1=[('basic', 4000, 150000), ('all', 3000, 100000)],
+        labels=r':Debug$',
+    ),
+    'C11': dict(
+        theorems=[(CMP + 'C11', ['DX.defaultCtorArgs_vals', 'DX.into_iff_strlit_or_path', 'DX.default_struct_follows_doc',
+                                 'DX.default_enum_rejections', 'DX.default_enum_follows_doc'])],
+        l1=[('basic', 4000, 150000), ('all', 3000, 100000)],
+        labels=r':Default$',
+    ),
+    'C14': dict(
+        theorems=[(CMP + 'C14', ['DX.isMatch_extend', 'DX.reemit_exact_struct', 'DX.reemit_exact_enum',
+                                 'DX.reemit_on_arg_error_struct', 'DX.reemit_on_arg_error_enum', 'DX.reemit_impl',
+                                 'DX.reemit_other', 'DX.item_always_emitted', 'DX.foreign_kept', 'DX.strip_is_sublist',
+                                 'DX.underived_helper_kept'])],
+        l1=[('strip', 5000, 200000), ('wild', 2000, 50000), ('impl', 1500, 30000), ('cmp1all', 10000, 'all')],
+        labels=r'^item$',
+    ),
+    'C15': dict(
+        theorems=[(CMP + 'C15', ['DX.entry_equiv_struct', 'DX.entry_equiv_enum', 'DX.entry_equiv_segments_struct',
+                                 'DX.entry_equiv_segments_enum', 'DX.split_equiv', 'DX.order_preserved', 'DX.fromAttrs_congr'])],
+        l1=[('all', 4000, 150000), ('cmp1all', 20000, 'all'), ('bounds', 2000, 50000)],
+        labels=r'^e\d+:|^err$',
+    ),
+    'C16': dict(
+        theorems=[(CMP + 'C16', ['DX.output_shape', 'DX.attr_output_nonempty', 'DX.derive_rejects_with_one_error',
+                                 'DX.core_error_single', 'DX.deterministic'])],
+        l1=[('wild', 5000, 200000), ('strip', 2000, 50000), ('impl', 2000, 50000), ('cmpWild', 2000, 50000)],
+        labels=r'.',
+        level_text='partial: totality and determinism are proved of the Lean model (total functions, accepted by the termination checker) and transferred to the implementation only through the L1 runs (catch_unwind around every expansion, every case expanded twice and compared, output re-parsed as items) and the mutation fuzzer; a Lean model cannot exhibit a Rust panic on inputs outside its input language',
+    ),
+    'C18': dict(
+        theorems=[(CMP + 'C18', ['DX.arity_rejected', 'DX.deref_is_field_place'])],
+        l1=[('ops', 4000, 150000)],
+        labels=r':Deref(Mut)?$',
+    ),
+    'C19': dict(
+        theorems=[(CMP + 'C19', ['DX.build_ignores_dump_struct', 'DX.build_ignores_dump_enum', 'DX.dump_payload',
+                                 'DX.dump_of_error', 'DX.kinds_ignore_dump', 'DX.dump_impl', 'DX.fwd_ignores_dump'])],
+        l1=[('dump', 5000, 150000), ('impl', 2000, 40000)],
+        labels=r'.',
+    ),
+})
+
 
 def search_failing_input(prop, mismatch, payload):
     """Given an L1 disagreement, look for a concrete input on which the property
